@@ -1349,7 +1349,7 @@ pub fn run(args: &Args) {
 		"From Coq Require Import ZArith List. Import ListNotations. Open Scope Z_scope.\nFrom KV Require Import Base.Corr C06.Run C09.Run.\nModule R4 := KV.C04.Run.",
 		"run",
 		24,
-		"one case = one frame vector (random / index-coded samples, 0-40 frames for model cases, up to 40000 for monitor-only ones), settings (sound and device rates, start position in samples or seconds incl. beyond the end, slice, loop region incl. empty / inverted / beyond the end, start time, volume / rate / panning fixed or modulator-linked, fade-in), a scripted decoder over the same vector (packet sizes 1..all, seek granularity 1..1000 packets), and a history of callbacks (1-2 process calls of 1-256 frames) with volume / rate / panning / pause / resume / resume_at / stop commands; the real static and the real streaming sound (real decoder thread, kept ahead through the decode_scheduler yield points: free-running or paced with exactly tight / generous / starving leads) are driven side by side; monitors = the property (outputs bit-identical, states and finished() identical after every call, positions within one frame until the end); model cases compare both traces with the Coq model; distinct = distinct scenarios with a command, loop, slice or natural end",
+		"one case = one frame vector (random / index-coded samples; 0-48 frames for model cases, up to 60000 for monitor-only ones), settings (sound and device rates, start position in samples or seconds incl. beyond the end, slice, loop region incl. empty / inverted / beyond the end, start time, volume / rate / panning fixed or modulator-linked, fade-in), a scripted decoder over the same vector (packet sizes 1..all, seek granularity 1..1000 packets), and a history of callbacks (1-2 process calls of 1-256 frames) with volume / rate / panning / pause / resume / resume_at / stop commands; the real static and the real streaming sound (real decoder thread, kept ahead through the decode_scheduler yield points: free-running, or paced with exactly tight / generous / starving leads) are driven side by side as Box<dyn Sound> (and through two real AudioManagers); monitors = the property (position and state before the first callback identical; outputs bit-identical, states and finished() identical after every call, state identical after every on_start_processing, positions within one frame until the end); model cases compare both traces with the Coq model bit for bit (every 8th without the checked fast paths); the *_refuted witnesses of the Coq development are replayed; distinct = distinct scenarios with a command, loop, slice or natural end",
 	);
 	let ids = ids();
 	// 1. model cases, free-running decoder
